@@ -430,6 +430,9 @@ def cases(tier, seed):
         for s in (False, True):
             out.append({'k': 'infer', 'b': b, 'signed': s})
             out.append({'k': 'const', 'b': b, 'signed': s})
+    for fn in ('infer', 'const'):
+        for sg in (False, True):
+            out.append({'k': 'bigwit', 'fn': fn, 'signed': sg})
     for b in ([1, 2, 3, 4, 8, 12, 16] if tier == 'quick' else list(range(1, 21))):
         for base in (2, 8, 10, 16):
             for neg in (False, True):
@@ -453,6 +456,8 @@ def cases(tier, seed):
 
 
 def site_of(c):
+    if c['k'] == 'bigwit':
+        return 'C16:%s:big-values:signed=%s' % (c['fn'], c['signed'])
     s = 'C16:%s' % c['k']
     if c['k'] in ('infer', 'const'):
         s += ':bitwidth=%s:signed=%s' % ('given' if c['b'] is not None else 'None', c['signed'])
@@ -491,7 +496,35 @@ def plain_witnesses(case, ob, site):
                                'value': val, 'detail': text})
 
 
+BIG_K = (31, 32, 33, 47, 48, 49, 50, 52, 53, 54, 62, 63, 64, 65, 100, 127, 128, 129)
+
+
+def do_bigwit(case, ob, site):
+    """plain Python ints around every power of two up to 2^129 (limb, double-precision and word boundaries) through the real
+    helpers, with the bitwidth inferred and with the exact / one-too-small explicit bitwidth: the 26-bit solver variable of the
+    other cases cannot reach values whose handling depends on float precision or machine words. A bounded witness check."""
+    fn, signed = case['fn'], case['signed']
+    for k in BIG_K:
+        for val in (2 ** k - 1, 2 ** k, 2 ** k + 1, -(2 ** k), -(2 ** k) - 1, -(2 ** k) + 1):
+            if val < 0 and not signed:
+                bs = (k + 1, k + 2)         # a negative value needs an explicit bitwidth when unsigned
+            else:
+                bs = (None, k, k + 1, k + 2)
+            for b in bs:
+                c = {'k': fn, 'b': b, 'signed': signed}
+                bad, text = replay({'case': c, 'value': val})
+                ob.n += 1
+                ob.structural += 1
+                if not bad:
+                    ob.unsat += 1
+                else:
+                    ob.sat.append({'property': PROP, 'obligation': 'plain-int-boundary-witness', 'site': site + ':plain-int',
+                                   'case': c, 'value': val, 'detail': text})
+
+
 def run_case(case, ob, tier):
+    if case['k'] == 'bigwit':
+        return do_bigwit(case, ob, 'C16:%s:big-values:signed=%s' % (case['fn'], case['signed']))
     KINDS[case['k']](case, ob, site_of(case))
     plain_witnesses(case, ob, site_of(case))
 
